@@ -92,9 +92,14 @@ fn into_iri<'a>(s: &'a str, mut prefix: &str) -> Cow<'a, str> {
     }
 }
 
+/// Renders a string as a JSON string literal (quoted, with every character escaped that JSON requires)
+fn json_str(s: &str) -> String {
+    serde_json::to_string(s).expect("a string can always be serialised to JSON")
+}
+
 fn value_to_json(value: &DataValue) -> String {
     match value {
-        DataValue::String(s) => format!("\"{}\"", s.replace("\n", "\\n").replace("\"", "\\\"")),
+        DataValue::String(s) => json_str(s),
         x => x.to_string(),
     }
 }
@@ -221,12 +226,12 @@ impl<'store> ResultItem<'store, Annotation> {
         ann_out += &config.serialize_context();
         ann_out += ",";
         if let Some(iri) = self.iri(&config.default_annotation_iri) {
-            ann_out += &format!("  \"id\": \"{}\",", iri);
+            ann_out += &format!("  \"id\": {},", json_str(&iri));
         } else if config.generate_annotation_iri {
             let id = nanoid!();
             ann_out += &format!(
-                " \"id\": \"{}\",",
-                into_iri(&id, &config.default_annotation_iri)
+                " \"id\": {},",
+                json_str(&into_iri(&id, &config.default_annotation_iri))
             )
         }
         ann_out += " \"type\": \"Annotation\",";
@@ -306,12 +311,12 @@ impl<'store> ResultItem<'store, Annotation> {
             }
             if !suppress_body_id {
                 if let Some(iri) = self.iri(&config.default_annotation_iri) {
-                    ann_out += &format!(" \"id\": \"{}/body\",", iri);
+                    ann_out += &format!(" \"id\": {},", json_str(&format!("{}/body", iri)));
                 } else if config.generate_annotation_iri {
                     let id = nanoid!();
                     ann_out += &format!(
-                        " \"id\": \"{}\",",
-                        into_iri(&id, &config.default_annotation_iri)
+                        " \"id\": {},",
+                        json_str(&into_iri(&id, &config.default_annotation_iri))
                     )
                 }
             }
@@ -366,14 +371,14 @@ fn output_predicate_datavalue(
         // Any String value that is a valid IRI *SHOULD* be interpreted as such
         // in conversion from/to RDF.
         format!(
-            "\"{}\": {{ \"id\": \"{}\" }}",
-            config.uri_to_namespace(predicate),
-            datavalue
+            "{}: {{ \"id\": {} }}",
+            json_str(&config.uri_to_namespace(predicate)),
+            json_str(&datavalue.to_string())
         )
     } else {
         format!(
-            "\"{}\": {}",
-            config.uri_to_namespace(predicate),
+            "{}: {}",
+            json_str(&config.uri_to_namespace(predicate)),
             &value_to_json(datavalue)
         )
     }
@@ -401,11 +406,11 @@ fn output_selector(
                     ann_out += "[";
                 }
                 ann_out += &format!(
-                    "{{ \"source\": \"{}\", \"selector\": {{ \"type\": \"TextPositionSelector\", \"start\": {}, \"end\": {} }} }}",
-                    into_iri(
+                    "{{ \"source\": {}, \"selector\": {{ \"type\": \"TextPositionSelector\", \"start\": {}, \"end\": {} }} }}",
+                    json_str(&into_iri(
                         resource.id().expect("resource must have ID"),
                         &config.default_resource_iri
-                    ),
+                    )),
                     textselection.begin(),
                     textselection.end(),
                 );
@@ -425,7 +430,7 @@ fn output_selector(
                     if !ann_out.is_empty() {
                         ann_out.push(',');
                     }
-                    ann_out += &format!("\"{}\"", &template);
+                    ann_out += &json_str(&template);
                     if !nested && !second_pass {
                         ann_out += " ]";
                     }
@@ -438,7 +443,7 @@ fn output_selector(
         Selector::AnnotationSelector(a_handle, None) => {
             let annotation = store.annotation(*a_handle).expect("annotation must exist");
             if let Some(iri) = annotation.iri(&config.default_annotation_iri) {
-                ann_out += &format!("{{ \"id\": \"{}\", \"type\": \"Annotation\" }}", iri);
+                ann_out += &format!("{{ \"id\": {}, \"type\": \"Annotation\" }}", json_str(&iri));
             } else {
                 ann_out += "{ \"id\": null }";
                 eprintln!("WARNING: Annotation points to an annotation that has no public ID! Unable to serialize to Web Annotatations");
@@ -447,21 +452,21 @@ fn output_selector(
         Selector::ResourceSelector(res_handle) => {
             let resource = store.resource(*res_handle).expect("resource must exist");
             ann_out += &format!(
-                "{{ \"id\": \"{}\", \"type\": \"Text\" }}",
-                into_iri(
+                "{{ \"id\": {}, \"type\": \"Text\" }}",
+                json_str(&into_iri(
                     resource.id().expect("resource must have ID"),
                     &config.default_resource_iri
-                ),
+                )),
             );
         }
         Selector::DataSetSelector(set_handle) => {
             let dataset = store.dataset(*set_handle).expect("resource must exist");
             ann_out += &format!(
-                "{{ \"id\": \"{}\", \"type\": \"Dataset\" }}",
-                into_iri(
+                "{{ \"id\": {}, \"type\": \"Dataset\" }}",
+                json_str(&into_iri(
                     dataset.id().expect("dataset must have ID"),
                     &config.default_resource_iri
-                ),
+                )),
             );
         }
         Selector::CompositeSelector(selectors) => {
